@@ -1,0 +1,17 @@
+//go:build verif
+
+package webhook
+
+import (
+	"context"
+
+	"sigs.k8s.io/controller-runtime/pkg/client"
+	"sigs.k8s.io/controller-runtime/pkg/webhook"
+
+	"github.com/AliyunContainerService/terway/types/controlplane"
+)
+
+// VerifPodWebhook exposes the pod mutating webhook's handler to the verification harness.
+func VerifPodWebhook(ctx context.Context, req *webhook.AdmissionRequest, c client.Client, config *controlplane.Config) webhook.AdmissionResponse {
+	return podWebhook(ctx, req, c, config)
+}
